@@ -26,7 +26,8 @@ EVIDENCE = {
     "rule": ("seeded sequences of primaries over the whole stream/function range (catalogued with inherited or "
              "harness-registered callbacks, catalogued without callback, uncatalogued), W set or not, bodies "
              "well-formed / empty / truncated / random / wrong format, injected singly or in bursts against equipment "
-             "and host handlers; non-trivial = at least one primary was malformed, uncatalogued or had a raising "
+             "and host handlers, system bytes of finished transactions re-used, host handlers also over the SECS-I "
+             "transport with ENQ contention; non-trivial = at least one primary was malformed, uncatalogued or had a raising "
              "callback; distinct = distinct (role, sorted set of (category, body kind, W) triples, scheduler)"),
     "real": ["secsgem.secs.SecsHandler", "secsgem.gem.GemEquipmentHandler / GemHostHandler (inherited handlers)",
              "secsgem.common.CallbackHandler", "secsgem.hsms.HsmsProtocol", "secsgem.common.Tcp*Connection"],
